@@ -1,13 +1,24 @@
 //! C13 - A simulation starts behind a barrier and ends with the requested status.
 
-use elvis::applications::{Capture, Forward, PingPong, SendMessage};
+use elvis::{
+    applications::{
+        dns_test_client::DnsTestClient, dns_test_server::DnsTestServer,
+        streaming_client::StreamingClient, streaming_server::VideoServer, BasicClient, BasicServer,
+        web_server::WebServerType, BareBonesServer, Capture, DhcpServer, Forward, PingPong,
+        SendMessage, SocketClient, SocketServer, TcpListenerServer, WebServer,
+    },
+    ip_generator::IpRange,
+};
 use elvis_core::{
     message::Message,
     protocol::{DemuxError, StartError},
     protocols::{
+        dhcp::dhcp_client::DhcpClient,
         ipv4::{Ipv4, Ipv4Address, Recipient},
-        Arp, Endpoint, Endpoints, Pci, Udp,
+        socket_api::socket::SocketType,
+        Arp, DnsClient, DnsServer, Endpoint, Endpoints, Pci, SocketAPI, Tcp, Udp,
     },
+    Transport,
     run_internet_with_timeout, Control, ExitStatus, IpTable, Machine, Network, Protocol, Session,
     Shutdown,
 };
@@ -112,6 +123,10 @@ pub enum Traffic {
     /// SendMessage -> Forward -> Capture
     SendForwardCapture { arp: bool },
     PingPong,
+    /// a client/server pair of built-in protocols and applications on full stacks with ARP
+    /// (no MAC in any route), every machine also carrying slow harness applications; only the
+    /// barrier and the bounded return are judged
+    Zoo(&'static str),
 }
 
 #[derive(Clone, Debug)]
@@ -247,6 +262,77 @@ impl Scenario for BarrierSc {
                     machines.push(with_slows(f, 1, 3, &cfg, &book).arc());
                     machines.push(with_slows(c, 2, 3, &cfg, &book).arc());
                 }
+                Traffic::Zoo(kind) => {
+                    let full = |addr: Ipv4Address| {
+                        Machine::new()
+                            .with(Udp::new())
+                            .with(Tcp::new())
+                            .with(Ipv4::new(table(true, 0)))
+                            .with(Pci::new([net.clone()]))
+                            .with(Arp::new())
+                            .with(SocketAPI::new(Some(addr)))
+                    };
+                    let srv = Endpoint::new(ip(1), 0xbeef);
+                    let ms: Vec<Machine> = match *kind {
+                        "dhcp" => vec![
+                            stack(true, 0).with(DhcpServer::new(ip(1), IpRange::new(ip(10), ip(20)))),
+                            stack(true, 0).with(DhcpClient::new(ip(1))),
+                        ],
+                        "dns" => vec![
+                            full(Ipv4Address::DNS_AUTH).with(DnsServer::new(1)),
+                            // the address the DNS server's built-in table has for testserver.com
+                            full(Ipv4Address::new([123, 45, 67, 15])).with(DnsTestServer::new(0xbeef, SocketType::Datagram)),
+                            full(ip(2)).with(DnsClient::new()).with(DnsTestClient::new(0xbeef, SocketType::Datagram)),
+                        ],
+                        "socket-tcp" | "socket-udp" => {
+                            let t = if *kind == "socket-tcp" { SocketType::Stream } else { SocketType::Datagram };
+                            vec![
+                                full(ip(1)).with(SocketServer::new().transport(t).num_clients(1).output(false)),
+                                full(ip(2)).with(SocketClient::new(1, ip(1), 0xbeef, t, false, 0)),
+                            ]
+                        }
+                        "basic-tcp" | "basic-udp" => {
+                            let t = if *kind == "basic-tcp" { Transport::Tcp } else { Transport::Udp };
+                            vec![
+                                full(ip(1)).with(BasicServer::new(srv, t, false, 1)),
+                                full(ip(2)).with(BasicClient::new(1, srv, ip(2), t, false, 0)),
+                            ]
+                        }
+                        // servers nobody talks to: machines that never finish
+                        "tcp-listener alone" => vec![
+                            full(ip(1)).with(TcpListenerServer::new(srv, Endpoint::new(ip(2), 70))),
+                        ],
+                        "dns-test-server alone" => vec![
+                            full(Ipv4Address::DNS_AUTH).with(DnsServer::new(1)),
+                            full(ip(1)).with(DnsTestServer::new(0xbeef, SocketType::Stream)),
+                        ],
+                        "socket-server alone" => vec![
+                            full(ip(1)).with(SocketServer::new().transport(SocketType::Stream).num_clients(1).output(false)),
+                        ],
+                        "basic-server alone" => vec![full(ip(1)).with(BasicServer::new(srv, Transport::Tcp, false, 1))],
+                        "video-server alone" => vec![full(ip(1)).with(VideoServer::new(srv))],
+                        "dhcp-server alone" => vec![
+                            stack(true, 0).with(DhcpServer::new(ip(1), IpRange::new(ip(10), ip(20)))),
+                        ],
+                        "barebones-server alone" => vec![full(ip(1)).with(BareBonesServer::new(srv))],
+                        "web-server alone" => vec![full(ip(1)).with(WebServer::new(WebServerType::Yahoo, None))],
+                        // clients whose server does not exist
+                        "socket-client alone" => vec![
+                            full(ip(2)).with(SocketClient::new(1, ip(1), 0xbeef, SocketType::Stream, false, 0)),
+                        ],
+                        "dhcp-client alone" => vec![stack(true, 0).with(DhcpClient::new(ip(1)))],
+                        "streaming-client alone" => vec![full(ip(2)).with(StreamingClient::new(srv))],
+                        "streaming" => vec![
+                            full(ip(1)).with(VideoServer::new(srv)),
+                            full(ip(2)).with(StreamingClient::new(srv)),
+                        ],
+                        other => panic!("unknown zoo kind {other}"),
+                    };
+                    let n = ms.len();
+                    for (i, m) in ms.into_iter().enumerate() {
+                        machines.push(with_slows(m, i, n, &cfg, &book).arc());
+                    }
+                }
                 Traffic::PingPong => {
                     let e1 = Endpoint::new(ip(1), 700);
                     let e2 = Endpoint::new(ip(2), 700);
@@ -290,6 +376,7 @@ impl Scenario for BarrierSc {
             Traffic::SendCapture { .. } => vec!["SendMessage", "Capture"],
             Traffic::SendForwardCapture { .. } => vec!["SendMessage", "Forward", "Capture"],
             Traffic::PingPong => vec!["PingPong", "PingPong"],
+            Traffic::Zoo(_) => vec!["server", "client", "client"],
         };
         let frame_origin = match first_frame_ev.map(|e| &e.2) {
             Some(Ev::Frame(p, mac)) => format!("{p}-frame-from-{}-machine", roles.get(*mac as usize).copied().unwrap_or("unknown")),
@@ -316,7 +403,8 @@ impl Scenario for BarrierSc {
             }
         }
         // --- status --------------------------------------------------------------------------
-        if let Some(status) = &status {
+        let zoo = matches!(cfg.traffic, Traffic::Zoo(_));
+        if let (Some(status), false) = (&status, zoo) {
             let mut requests: Vec<(u64, Duration, Option<u32>)> = ev
                 .iter()
                 .filter_map(|e| match e.2 {
@@ -366,6 +454,8 @@ impl Scenario for BarrierSc {
                     }
                 }
             }
+        }
+        if status.is_some() {
             if elapsed > timeout + Duration::from_millis(1000) {
                 viols.push(Violation::new(
                     "bounded-return",
@@ -431,6 +521,20 @@ pub fn cfgs(tier: &str) -> Vec<(BarrierCfg, Bounds)> {
     add("SendMessage -> Forward -> Capture with ARP, slow harness apps", 1000,
         Traffic::SendForwardCapture { arp: true }, vec![slow(3, After::Return), slow(1, After::Return), slow(0, After::Return)], if q { 1 } else { 2 });
     add("PingPong, slow harness app, timeout 1 s", 1000, Traffic::PingPong, vec![slow(3, After::Return)], if q { 1 } else { 2 });
+    for kind in [
+        "dhcp", "dns", "socket-tcp", "socket-udp", "basic-tcp", "basic-udp", "streaming",
+        "tcp-listener alone", "dns-test-server alone", "socket-server alone", "basic-server alone",
+        "video-server alone", "dhcp-server alone", "barebones-server alone",
+        "socket-client alone", "dhcp-client alone", "streaming-client alone",
+    ] {
+        add(
+            &format!("built-ins behind the barrier: {kind}, ARP everywhere, slow harness apps on every machine"),
+            300,
+            Traffic::Zoo(kind),
+            vec![slow(3, After::Return), slow(2, After::Return), slow(1, After::Return)],
+            if q { 1 } else { 2 },
+        );
+    }
     // zero machines
     v.push((
         BarrierCfg {
